@@ -12,7 +12,8 @@ _SEQ = []
 KINDS = ['ok', 'stream', 'ctx', 'static', 'static304', 'redirect', 'slashredirect_ctl', 'reroute_rewrite', 'reroute_raise_rewrite',
          'notfound', 'wrongmethod', 'boom', 'boombraces', 'ret400braces',
          'debugboom', 'meta', 'gzip', 'cache',
-         'empty', 'ret403', 'reroute', 'reroute_raise', 'unicode_header', 'ret403msg', 'raise404msg', 'raise409nl']
+         'empty', 'ret403', 'reroute', 'reroute_raise', 'unicode_header', 'ret403msg', 'raise404msg', 'raise409nl',
+         'gzip_static', 'gzip_static304', 'gzip_stream', 'cache_static']
 METHODS = ['GET', 'HEAD', 'POST', 'OPTIONS']
 
 
@@ -58,7 +59,16 @@ def build_stack_app(case):
                 routes.append(__import__('clastic').Route(r['pattern'], ep, middlewares=[mw(m) for m in r['mws']]))
         kw = {'error_handler': handler} if (level.get('top') and handler is not None) else {}
         return Application(routes, middlewares=[mw(m) for m in level['mws']], **kw)
-    return mk_app(case['app'])
+    app = mk_app(case['app'])
+    # the wrapper stack is put together when the application is constructed: from what is bound at that moment
+    app._verif_bound0 = [list(br.middlewares) for br in [app._null_route] + list(app.routes)]
+    for r in case.get('late') or []:
+        # the application is complete; later a route (or a sub-application) with middlewares of its own is added
+        if 'sub' in r:
+            app.add(SubApplication(r['prefix'], mk_app(r['sub'])))
+        else:
+            app.add(__import__('clastic').Route(r['pattern'], ep, middlewares=[mw(m) for m in r['mws']]))
+    return app
 
 
 def impl_stack(case):
@@ -67,8 +77,8 @@ def impl_stack(case):
         app = build_stack_app(case)
     except Exception as e:
         return {'construct': type(e).__name__}
-    out = {'construct': 'ok', 'bound': [[[m.inst, case['types'][str(m.inst)], bool(getattr(m, 'wsgi_wrapper', None))] for m in br.middlewares]
-                                        for br in [app._null_route] + list(app.routes)], 'seqs': []}
+    out = {'construct': 'ok', 'bound': [[[m.inst, case['types'][str(m.inst)], bool(getattr(m, 'wsgi_wrapper', None))] for m in mws]
+                                        for mws in app._verif_bound0], 'seqs': []}
     for path in case['paths']:
         del _SEQ[:]
         r = wsgi.get(app, path)
@@ -170,7 +180,7 @@ def build_kind_app(kind, tmpdir, target_kind='plain203'):
     def ret400braces():
         from clastic.errors import BadRequest
         return BadRequest('expected {"name": ...} or {0}, got }{')
-    mws = [GzipMiddleware()] if kind == 'gzip' else [HTTPCacheMiddleware()] if kind == 'cache' else []
+    mws = [GzipMiddleware()] if kind.startswith('gzip') else [HTTPCacheMiddleware()] if kind.startswith('cache') else []
     routes = [('/ok', lambda: Response(b'hello world ' * 200, mimetype='text/plain')),
               ('/stream', lambda: Response((b'c%d' % i for i in range(5)), mimetype='text/plain')),
               ('/ctx', lambda: {'a': 1}, render_basic), ('/static', StaticApplication(tmpdir)), ('/redirect', lambda: redirect('/ok')),
@@ -246,14 +256,16 @@ def impl_kind(case):
                 'meta': '/meta/', 'gzip': '/ok', 'cache': '/ok', 'empty': '/empty', 'ret403': '/ret403', 'reroute': '/reroute',
                 'reroute_raise': '/reroute_raise', 'unicode_header': '/unicode_header',
                 'ret403msg': '/ret403msg', 'raise404msg': '/raise404msg', 'raise409nl': '/raise409nl',
+                # file-backed and streamed responses THROUGH the body-processing middlewares
+                'gzip_static': '/static/file.txt', 'gzip_static304': '/static/file.txt', 'gzip_stream': '/stream', 'cache_static': '/static/file.txt',
                 # a slash redirect whose path holds control characters (percent-decoded by the server): still a valid header value
                 'slashredirect_ctl': '/files/a\x01b\x1b[31m',
                 # a rewrite-mode application reroutes a path with doubled separators: the environ goes over untouched
                 'reroute_rewrite': '/rr//a///b', 'reroute_raise_rewrite': '/rrr//a///b'}[kind]
         headers = dict(case.get('headers') or {})
-        if kind == 'static304':
+        if kind in ('static304', 'gzip_static304'):
             headers['If-Modified-Since'] = http_date(1500000000)
-        if kind == 'gzip':
+        if kind.startswith('gzip'):
             headers['Accept-Encoding'] = 'gzip'
         if kind == 'wrongmethod' and method == 'POST':
             method = 'PUT'
@@ -353,8 +365,15 @@ def gen_stack(rng):
             seen.add(m['type'])
         return {'mws': uniq, 'routes': routes, 'top': top}
     app = level(2, True)
-    return {'lab': 'stack', 'app': app, 'types': types, 'handler_wrapper': rng.random() < 0.3,
-            'paths': ['/', '/r20', '/s20/r10', '/nope']}
+    late = []
+    if rng.random() < 0.4:
+        for k in range(rng.choice([1, 2])):
+            if rng.random() < 0.3:
+                late.append({'prefix': '/late%d' % k, 'sub': level(1)})
+            else:
+                late.append({'pattern': '/late%d' % k, 'mws': mws(rng.choice([1, 1, 2]))})
+    return {'lab': 'stack', 'app': app, 'types': types, 'handler_wrapper': rng.random() < 0.3, 'late': late,
+            'paths': ['/', '/r20', '/s20/r10', '/nope', '/late0']}
 
 
 def run(rep, b, tier, seed, only_cases=None):
@@ -450,7 +469,7 @@ def run(rep, b, tier, seed, only_cases=None):
             rep.violation('%s: %s' % (what, o['problems']), {'case': c, 'signature': 'write-callable'})
         val = o.get('validator')
         if val and val != 'ok':
-            if 'Content-Type' in val and c['kind'] in ('static304', 'empty'):
+            if 'Content-Type' in val and c['kind'] in ('static304', 'empty', 'gzip_static304'):
                 rep.count('validator.content_type_on_%s' % c['kind'])
             else:
                 rep.violation('%s: wsgiref.validate: %s' % (what, val), {'case': c, 'signature': 'validator'})
